@@ -101,7 +101,7 @@ def run(chk):
             fp = BufV("fp", is_file=True)
             W.run_method(I, inst, "write", [fp])
             bad = W.first_write_then_eval(I.events)
-            site = ci.lookup("write").site()
+            site = ci.site_of("write")
             nwrites = W.count_events(I.events, "write")
             nevals = W.count_events(I.events, "eval")
             chk.ob("C17.E", "%s.write: EVAL* then WRITE(fp)*  (%d evaluation site(s), %d write site(s))" % (ci.name, nevals, nwrites),
@@ -119,7 +119,7 @@ def run(chk):
                 ok = isinstance(b, BufV) and isinstance(fn, Const) and fn.v == "out.table" and isinstance(mode, Const) \
                     and isinstance(mode.v, str) and mode.v in (("wb",) if excel else ("w", "wt"))
                 chk.ob("C17.O", "%s.open_fp(name) opens the named file, truncating, in %s mode" % (ci.name, "binary" if excel else "text"), ok,
-                       site=ci.lookup("open_fp").site(), found=(fn, mode) if isinstance(b, BufV) else b,
+                       site=ci.site_of("open_fp"), found=(fn, mode) if isinstance(b, BufV) else b,
                        expect="open(name, %r)" % ("wb" if excel else "w"), key="C17.O|%s.open_fp" % ci.name)
             return nevals
         r = chk.attempt(ci.name, one)
@@ -190,7 +190,7 @@ def retry(chk, P, ci, how):
         roles += ["density", "embedding"]
     if "dipole_potentials" in params:
         roles += ["dipole", "quadrupole"]
-    site = ci.lookup("write").site()
+    site = ci.site_of("write")
     for role in roles:
         I = W.make_interp(P)
         excelmodel.install(I)
